@@ -232,6 +232,7 @@ package service
 //@   trace[C15,C17,authenticated-reported-once] exactly 1 service.TCPConnMetrics.AddAuthenticated when evres("service.streamHandler.authenticate", 2) == nil
 //@   trace[C15,C17,unauthenticated-not-reported] never service.TCPConnMetrics.AddAuthenticated when evres("service.streamHandler.authenticate", 2) != nil
 //@   trace[C15,C17,authenticated-id] each service.TCPConnMetrics.AddAuthenticated satisfies $arg0 == evres("service.streamHandler.authenticate", 0)
+//@   trace[C06,handshake-deadline-cleared-before-the-post-authentication-drain] each io.Copy satisfies evcount("transport.StreamConn.SetReadDeadline") == 2
 //@   trace[C06,bad-address-drained] each service.getProxyRequest satisfies $res1 != nil ==> evcount("io.Copy") == 1 && result != nil && result.Status == "ERR_READ_ADDRESS"
 //@   trace[C15,relay-status-returned] each service.proxyConnection satisfies result == $res0
 //@   trace[C15,auth-failure-status] each service.streamHandler.authenticate satisfies $res2 != nil ==> result == $res2
@@ -837,10 +838,10 @@ package service
 //@   trace[C12,hands-off-what-it-accepted] loop 1 each send satisfies $recv == acceptCh && $arg0.conn == evres("service.(*TCPListener).AcceptStream", 0) && $arg0.err == evres("service.(*TCPListener).AcceptStream", 1)
 //@   trace[C12,accepts-on-its-own-socket] loop 1 each service.(*TCPListener).AcceptStream satisfies $arg0 == sharedLn
 //@   trace[C12,nothing-sent-after-close] never send when evcount("close") > 0
-//@   trace[C12,channel-closed-only-after-checking-the-error] before errors.Is close
-//@   trace[C12,checks-the-accept-error-for-ErrClosed] each errors.Is satisfies $arg1 == net.ErrClosed
-//@   trace[C12,transient-accept-error-keeps-the-listener-open] each errors.Is satisfies $res0 == false ==> evcount("close") == 0
-//@   trace[C12,stops-only-when-the-socket-is-closed] each errors.Is satisfies $res0 == true ==> evcount("close") == 1
+//@   trace[C12,C18,channel-closed-only-after-checking-the-error] before errors.Is close
+//@   trace[C12,C18,checks-the-accept-error-for-ErrClosed] each errors.Is satisfies $arg1 == net.ErrClosed
+//@   trace[C12,C18,transient-accept-error-keeps-the-listener-open] each errors.Is satisfies $res0 == false ==> evcount("close") == 0
+//@   trace[C12,C18,stops-only-when-the-socket-is-closed] each errors.Is satisfies $res0 == true ==> evcount("close") == 1
 
 // close function of one stream handle. It runs at most once per handle (the handle clears
 // its onCloseFunc) and only after Acquire counted the handle, hence count > 0 on entry.
